@@ -221,7 +221,10 @@ Section Iff.
     list_mode am hm rels = LPos true -> forall x y, In (x, y) (combine lels rels) -> Guard x y.
   Hypothesis G_value : forall i lels j rels, Guard (NSeq i lels) (NSeq j rels) ->
     list_mode am hm rels = LValue ->
-    unkeyed hm = true /\ forall x y, In x lels -> In y rels -> Guard x y.
+    forall x y, In x lels -> In y rels -> data_eq x y = true -> Guard x y.
+  (* under the guard, exact equality implies the equivalence *)
+  Hypothesis G_equal : forall x y, okd x -> okd y -> Guard x y -> data_eq x y = true ->
+    equiv am hm x y = true.
   Hypothesis G_key : forall i lels j rels d,
     okd (NSeq i lels) -> okd (NSeq j rels) -> Guard (NSeq i lels) (NSeq j rels) ->
     list_mode am hm rels = LKey d ->
@@ -487,13 +490,13 @@ Section Iff.
 
   (* ---- sequences: the value-synchronised comparer ---- *)
   Lemma synced_iff : forall rec path q r0 lels rels a a',
-    rec_iff rec -> unkeyed hm = true ->
+    rec_iff rec ->
     (forall x, In x lels -> okd x) -> (forall y, In y rels -> okd y) ->
-    (forall x y, In x lels -> In y rels -> Guard x y) ->
+    (forall x y, In x lels -> In y rels -> data_eq x y = true -> Guard x y) ->
     diff_synced path_eq rec path q r0 lels rels a = Ok a' ->
     SD a' = SD a || negb (bag_eqb data_eq lels rels).
   Proof.
-    intros rec path q r0 lels rels a a' Hrec Hk OL OR HG H. unfold diff_synced in H.
+    intros rec path q r0 lels rels a a' Hrec OL OR HG H. unfold diff_synced in H.
     destruct (sync_value_accounting lels rels) as [El Pr].
     assert (FS := fun Hs => fold_SD _ (fun p => negb (matched p)) (sync_value lels rels) a a' Hs H).
     rewrite FS; clear FS.
@@ -508,11 +511,13 @@ Section Iff.
       destruct lidx as [li|].
       + destruct ridx as [ri|].
         * destruct (pair_elems _ _ _ _ _ _ _ El Pr Hin) as [I1 I2].
-          rewrite (Hrec _ _ _ _ _ _ _ _ (OL _ I1) (OR _ I2) (HG _ _ I1 I2) Hstep). simpl.
           pose proof (sync_value_go_matched _ _ _ _ _ _ Hin) as M.
           rewrite (okd_eq _ _ (OR _ I2) (OL _ I1)) in M.
           destruct (OL _ I1) as [W1 _]. destruct (OR _ I2) as [W2 _].
-          rewrite (data_eq_equiv am hm Hk _ _ W1 W2 (data_eq_sym _ _ W2 W1 M)). reflexivity.
+          pose proof (data_eq_sym _ _ W2 W1 M) as D.
+          pose proof (HG _ _ I1 I2 D) as Gp.
+          rewrite (Hrec _ _ _ _ _ _ _ _ (OL _ I1) (OR _ I2) Gp Hstep). simpl.
+          rewrite (G_equal _ _ (OL _ I1) (OR _ I2) Gp D). reflexivity.
         * inversion Hstep; subst. rewrite SD_cons. simpl. rewrite ?orb_true_r. reflexivity.
       + destruct (find_delete path_eq (path_add_idx path ridx) b) as [[[d b'']|]| |] eqn:F;
           simpl in Hstep; try discriminate; inversion Hstep; subst; clear Hstep.
@@ -644,7 +649,7 @@ Section Iff.
     destruct (list_mode am hm rels) as [[|]| |d] eqn:M.
     - eapply (zip_iff rec true); try eassumption. intros _. eapply G_zip; eauto.
     - eapply (zip_iff rec false); try eassumption. intros X; discriminate X.
-    - destruct (G_value _ _ _ _ HG M) as [Hk HGv]. eapply synced_iff; eassumption.
+    - eapply synced_iff; try eassumption. eapply G_value; eauto.
     - eapply keyed_iff; eassumption.
   Qed.
 
@@ -691,6 +696,7 @@ Theorem compare_to_iff : forall path_eq cfg am hm,
 Proof.
   intros path_eq cfg am hm Hu Hk L R es HwL HwR HuL HuR H.
   apply (compare_to_iff_G path_eq cfg am hm Hu (fun _ _ => True)); auto.
+  - intros x y [W1 _] [W2 _] _ D. apply data_eq_equiv; auto.
   - intros i lels j rels d _ _ _ M. exfalso. exact (list_mode_unkeyed _ _ _ _ Hk M).
 Qed.
 
